@@ -40,6 +40,9 @@ PointsExplained(pts, x, d) ==
     /\ \A j \in 0..(Len(x) - 1) : \E q \in 1..Len(pts) : CoordOf(pts[q], x) = j
 \* column j of the result: the forward difference quotient (exact: the difference is a multiple of d)
 FwdQuotCol(fb, fn, d) == [i \in 1..Len(fb) |-> QuotExact(fn[i] - fb[i], d)]
+\* the forward quotient of the square, exactly: ((x + d)^2 - x^2) / d = 2 x + d  (MC_Jacobian checks the identity);
+\* a central stencil would give 2 x, a step other than d another number
+QuadQuot(x, d) == 2 * x + d
 \* the acceptance test of the column store
 AccStore(J, j) == IF SetColRangeAgainst = "rows" THEN 0 <= j /\ j < J.r ELSE 0 <= j /\ j < J.c
 
